@@ -218,6 +218,48 @@ func init() {
 		pcs = append(pcs, sharedDefinitionCases(c, "c04-shared-definitions")...)
 		// required names with characters that mean something to a format string, a template or a tag
 		pcs = append(pcs, requiredPunctuatedNames("c04-punctuated-names", false)...)
+		// compositions NESTED in compositions over the SAME definition (a member of an allOf type is again an allOf with
+		// that definition — directly, two levels down, or through a definition that sorts later): the inner position
+		// keeps every presence check, of the definition and of its own branch
+		{
+			person := func() M {
+				return M{"type": "object", "properties": M{"name": M{"type": "string"}, "email": M{"type": "string"}}, "required": []any{"name"}}
+			}
+			inner := func(extra M) M {
+				return M{"allOf": []any{M{"$ref": "#/$defs/Person"}, extra}}
+			}
+			lvl := M{"type": "object", "properties": M{"level": M{"type": "integer"}}, "required": []any{"email", "level"}}
+			mgr := M{"name": "b", "email": "e", "level": 1}
+			del := func(doc M, path ...string) M {
+				d := sgen.DeepCopy(doc).(M)
+				cur := d
+				for _, k := range path[:len(path)-1] {
+					cur = cur[k].(M)
+				}
+				delete(cur, path[len(path)-1])
+				return d
+			}
+			// (a) directly nested
+			sa := M{"type": "object", "$defs": M{"Person": person()}, "required": []any{"employee"}, "properties": M{
+				"employee": inner(M{"type": "object", "properties": M{"manager": inner(sgen.DeepCopy(lvl).(M))}, "required": []any{"manager"}})}}
+			da := M{"employee": M{"name": "a", "manager": sgen.DeepCopy(mgr)}}
+			pcs = append(pcs, baseCase("c04-nested-compositions", sa, []any{da, del(da, "employee", "name"), del(da, "employee", "manager"),
+				del(da, "employee", "manager", "name"), del(da, "employee", "manager", "email"), del(da, "employee", "manager", "level"), M{"employee": M{"name": "a", "manager": M{}}}}, "direct"))
+			// (b) two levels down
+			sb := M{"type": "object", "$defs": M{"Person": person()}, "properties": M{
+				"employee": inner(M{"type": "object", "properties": M{"manager": inner(M{"type": "object", "properties": M{"boss": inner(sgen.DeepCopy(lvl).(M))}, "required": []any{"boss"}})}})}}
+			db := M{"employee": M{"name": "a", "manager": M{"name": "m", "boss": sgen.DeepCopy(mgr)}}}
+			pcs = append(pcs, baseCase("c04-nested-compositions", sb, []any{db, del(db, "employee", "manager", "name"), del(db, "employee", "manager", "boss"),
+				del(db, "employee", "manager", "boss", "name"), del(db, "employee", "manager", "boss", "email"), del(db, "employee", "manager", "boss", "level")}, "two-levels"))
+			// (c) through a definition that sorts after the referring one
+			sc := M{"type": "object", "$defs": M{"Person": person(),
+				"Alpha": M{"type": "object", "properties": M{"boss": inner(M{"type": "object", "properties": M{"peer": M{"$ref": "#/$defs/Zeta"}}})}},
+				"Zeta":  M{"type": "object", "properties": M{"who": inner(M{"required": []any{"email"}})}, "required": []any{"who"}}},
+				"properties": M{"zeta": M{"$ref": "#/$defs/Zeta"}, "alpha": M{"$ref": "#/$defs/Alpha"}}}
+			dc := M{"zeta": M{"who": M{"name": "n", "email": "e"}}, "alpha": M{"boss": M{"name": "x", "peer": M{"who": M{"name": "n", "email": "e"}}}}}
+			pcs = append(pcs, baseCase("c04-nested-compositions", sc, []any{dc, del(dc, "zeta", "who", "email"), del(dc, "zeta", "who", "name"), del(dc, "zeta", "who"),
+				del(dc, "alpha", "boss", "peer", "who", "email"), del(dc, "alpha", "boss", "name")}, "through-later-definition"))
+		}
 		// random
 		pcs = append(pcs, randomTreeCases(c, "c04-random", c.N(250, 4000), treeOpts(), func(g *sgen.G, root sgen.M, base any) []any {
 			var docs []any
